@@ -110,6 +110,15 @@ func (view *View) GroupBy(ctx context.Context, scope *ReferenceScope, clause par
 }
 
 func (view *View) group(ctx context.Context, scope *ReferenceScope, items []parser.QueryExpression) error {
+	if view.FieldLen() < 1 {
+		// The cells of a grouped record hold the records of the group, so a view that has no field,
+		// e.g. a completely empty file, is given an unnamed field in the same way as the dual view.
+		view.Header = NewEmptyHeader(1)
+		for i := range view.RecordSet {
+			view.RecordSet[i] = NewEmptyRecord(1)
+		}
+	}
+
 	if items == nil {
 		return view.groupAll(ctx, scope.Tx.Flags)
 	}
